@@ -1262,6 +1262,13 @@ class Normalizer:
             if nm in state["locals"] or nm in used_in_args:
                 ren[nm] = f"{nm}__{hname}{k}"
         ret = f"_ret_{hname}{k}"
+        # a parameter that the helper never re-binds and that is given a constant or a constant path (Cmd.UNLOCK, self.CMD.X) is that constant
+        consts_ = {}
+        for nm in params:
+            if nm in binding and nm not in assigned and nm not in aliased and (_is_const(binding[nm]) or _stable_path(binding[nm])):
+                consts_[nm] = binding[nm]
+        if consts_:
+            helper.body = [_ConstSub(consts_).visit(s) for s in helper.body]
         body = [_Rename(ren).visit(s) for s in helper.body]
         newbody = []
         rr = _ReturnRewriter(ret)
@@ -1279,7 +1286,7 @@ class Normalizer:
             tgt = ren.get(p, p)
             if isinstance(a, ast.Name) and a.id == tgt:
                 continue
-            if p in aliased:
+            if p in aliased or p in consts_:
                 continue
             asg = ast.Assign(targets=[ast.Name(id=tgt, ctx=ast.Store())], value=copy.deepcopy(a) if a in defaults else a, type_comment=None)
             ast.copy_location(asg, call)
